@@ -172,6 +172,8 @@ class Executor(object):
         self._for_covers = {}
         self._loops_done = set()
         self.stats = dict(feasibility_checks=0, paths=0)
+        self._module_state_cache = {}
+        self.local_classes = False            # opt-in: class statements inside functions bind a record of the class and its closure
         self.annihilations = None             # opt-in: list of (array operand, line) multiplied by the constant zero
         self.cmp_log = {}                     # name of the fresh boolean of an unmodelled comparison -> (op, left, right)
         self.dtype_tags = {}                  # id(value) -> (tag, value): opt-in provenance of an array's dtype (`x.dtype` then names the tag)
@@ -671,6 +673,21 @@ class Executor(object):
             out.append((s, self.binop(node.op, vals[0], vals[1], s, ctx, node)))
         return out
 
+    def is_module_state(self, name, ctx):
+        """Is `name` a module-level variable of the file under verification that is bound to a mutable container literal / constructor?"""
+        if ctx.finfo is None or "." in name:
+            return False
+        key = (ctx.finfo.file, name)
+        if key not in self._module_state_cache:
+            found = False
+            tree = self.src.load(ctx.finfo.file)[1]
+            for node in (tree.body if tree is not None else []):
+                if isinstance(node, ast.Assign) and any(isinstance(t, ast.Name) and t.id == name for t in node.targets):
+                    v = node.value
+                    found = isinstance(v, (ast.Dict, ast.List, ast.Set)) or (isinstance(v, ast.Call) and isinstance(v.func, ast.Name) and v.func.id in ("dict", "list", "set", "OrderedDict", "defaultdict"))
+            self._module_state_cache[key] = found
+        return self._module_state_cache[key]
+
     def binop(self, op, a, b, st, ctx, node=None):
         if self.annihilations is not None and type(op).__name__ == "Mult":
             # `x * 0` equals 0 over the reals (A1) but not in IEEE arithmetic (nan * 0 = inf * 0 = nan): harnesses that hand in buffers left
@@ -977,6 +994,9 @@ class Executor(object):
         if isinstance(f, ModuleRef):
             path = f.path
             short = path.split(".")[-1]
+            if "." in path and short in ("get", "setdefault", "pop", "copy", "items", "values", "keys") and self.is_module_state(path.rsplit(".", 1)[0], ctx):
+                # a method of a module-level mutable container of the file under verification: state that survives calls
+                return [(st, Opaque("module_state"))]
             if path in self.call_hooks or short in self.call_hooks:
                 r = self.call_hooks.get(path, self.call_hooks.get(short))(self, st, ctx, args, kwargs)
                 return r if isinstance(r, list) else [(st, r)]
@@ -1541,7 +1561,15 @@ class Executor(object):
         return [(st, None)]
 
     def s_ClassDef(self, node, st, ctx):
-        raise Unsupported("nested class definition")
+        # a class defined inside a function (class factories): the name is bound to a heap object that records *which* class statement it
+        # is and the environment it closes over -- enough to state "the factory returns the class it defined in this call, specialised to
+        # its arguments"; the class body is not executed here (its methods are verified on their own, with the closure bound by the harness)
+        if not self.local_classes:
+            raise Unsupported("nested class definition")
+        ref = st.new_obj("<local class>", fields={"__class_statement__": (ctx.finfo.qualname if ctx.finfo else "?") + "." + node.name, "__defined_at__": node.lineno,
+                                                  "__closure__": dict(st.env), "__name__": node.name, "__qualname__": node.name})
+        st.env[node.name] = ref
+        return [(st, None)]
 
     def s_If(self, node, st, ctx):
         if _is_dropped_if(node):
